@@ -23,6 +23,7 @@ VERIF = os.path.dirname(os.path.dirname(os.path.abspath(__file__)))
 LEAN = os.path.join(VERIF, "lean")
 REPO = os.environ.get("VERIF_REPO", "/repo")
 BUILD = os.environ.get("VERIF_BUILD", os.path.join(VERIF, ".build"))
+EVIDENCE = os.environ.get("VERIF_EVIDENCE", os.path.join(VERIF, "evidence"))   # mutant runs write elsewhere
 PY = "/venv/bin/python"
 ALLOWED_AXIOMS = {"propext", "Classical.choice", "Quot.sound"}
 FORBIDDEN = re.compile(r"\b(sorry|admit|native_decide|bv_decide|implemented_by|unsafe )\b|^axiom |maxHeartbeats 0")
@@ -271,7 +272,7 @@ class Check:
         self.replay = None
         if "--replay" in sys.argv:
             self.replay = sys.argv[sys.argv.index("--replay") + 1]
-        os.makedirs(os.path.join(VERIF, "evidence", "replays"), exist_ok=True)
+        os.makedirs(os.path.join(EVIDENCE, "replays"), exist_ok=True)
 
     # ---- steps -----------------------------------------------------------
     def build(self):
@@ -284,10 +285,17 @@ class Check:
     def translate(self):
         ok, rep = run_translator()
         self.translator = rep
-        if not ok:
+        for f in rep.get("failed", []):
+            sv = f.get("serves")
+            if sv is None or self.id in sv:
+                self.violations.append({
+                    "kind": "translator", "signature": f"translator:{f['extractor']}:{f['what']}",
+                    "what": f"translator no longer recognises the source shape ({f['extractor']}/{f['what']}): {f['why'][:300]}",
+                    "data": f, "concrete": False})
+        if rep.get("failed_hard"):
             self.violations.append({
-                "kind": "translator", "signature": "translator:" + rep.get("failed", "?"),
-                "what": "translator no longer recognises the source shape: " + rep.get("why", ""),
+                "kind": "translator", "signature": "translator:" + rep["failed_hard"],
+                "what": "translator failed and no previous section exists: " + rep.get("why", ""),
                 "data": rep, "concrete": False})
         return ok
 
@@ -347,7 +355,7 @@ class Check:
         n = 0
         for v in uniq:
             n += 1
-            rp = os.path.join(VERIF, "evidence", "replays", f"{self.id}-{n}.json")
+            rp = os.path.join(EVIDENCE, "replays", f"{self.id}-{n}.json")
             with open(rp, "w") as f:
                 json.dump({"property": self.id, "kind": v["kind"], "signature": v["signature"],
                            "what": v["what"], "seed": self.seed, "tier": self.tier,
@@ -374,7 +382,7 @@ class Check:
         ev = {"property_id": self.id, "tier": self.tier, "seed": self.seed, "level": "proof",
               "coverage": cov, "assumptions": self.assumptions,
               "wall_s": round(time.time() - self.t0, 2), "violations": nviol}
-        with open(os.path.join(VERIF, "evidence", self.id + ".json"), "w") as f:
+        with open(os.path.join(EVIDENCE, self.id + ".json"), "w") as f:
             json.dump(ev, f, indent=1, default=str)
 
 
